@@ -246,7 +246,7 @@ def part_builders(task):
   # ---- children under continuous parameters, bad parent values
   child = F('c', bounds=(0, 1))
   for parent_kw, pv, must_reject in [
-      (dict(bounds=(0.0, 1.0)), [0.5], True), (dict(bounds=(0, 2)), [1], False), (dict(bounds=(0, 2)), [7], True),
+      (dict(bounds=(0.0, 1.0)), [0.5], True), (dict(bounds=(2.0, 2.0)), [2.0], True), (dict(bounds=(0.0, 0.0)), [0.0], True), (dict(bounds=(0, 2)), [1], False), (dict(bounds=(0, 2)), [7], True),
       (dict(feasible_values=['a', 'b']), ['a'], False), (dict(feasible_values=['a', 'b']), ['z'], True),
       (dict(feasible_values=[1.0, 2.0]), [2.0], False), (dict(feasible_values=[1.0, 2.0]), [3.0], True)]:
     n += 1
@@ -260,6 +260,23 @@ def part_builders(task):
       V('C16|factory-accepts-invalid|children', 'factory(%r, children under parent values %r) was accepted' % (parent_kw, pv))
     if not must_reject and not ok:
       V('C16|factory-rejects-valid|children', 'factory(%r, children under parent values %r) was rejected' % (parent_kw, pv))
+  # ---- children under continuous parameters through the selector API (also when the range is a single point)
+  for lo, hi, v in [(0.0, 1.0, 0.5), (2.0, 2.0, 2.0), (0.0, 0.0, 0.0), (-1.0, 1.0, 0.0)]:
+    for path in ('select', 'select_values'):
+      n += 1
+      nontriv += 1
+      ss = vz.SearchSpace()
+      ss.root.add_float_param('d', lo, hi)
+      try:
+        if path == 'select':
+          ss.root.select('d', [v]).add_int_param('child', 0, 1)
+        else:
+          ss.root.select('d').select_values([v]).add_int_param('child', 0, 1)
+        ok = True
+      except (ValueError, TypeError, NotImplementedError, KeyError):
+        ok = False
+      if ok and (ss.is_conditional or [c for c in ss.get('d').child_parameter_configs]):
+        V('C16|builder-accepts-invalid|children-under-continuous', '%s on DOUBLE [%r, %r] value %r attached a child parameter' % (path, lo, hi, v))
   # ---- add_*_param builders and duplicate names in one subspace
   for m, args in [('add_float_param', (0, 1)), ('add_int_param', (0, 3)), ('add_discrete_param', ([1, 2],)), ('add_categorical_param', (['a', 'b'],)), ('add_bool_param', ())]:
     for name in ['', 'a']:
